@@ -15,7 +15,10 @@
 (* Part 2: the design: Allocate / Release / Update as the code does them   *)
 (* (admission test, accounting in ancestors and descendants, re-pinning of *)
 (* shared sets).  Pool choice and CPU choice are heuristic in the code and *)
-(* nondeterministic here.                                                  *)
+(* nondeterministic here.  Update is what UpdateResources does: release,   *)
+(* then allocate again (two steps under the lock, nothing else between);   *)
+(* when the second step fails the container stays alive WITHOUT a grant:   *)
+(* the named deviation `dropped` = F-C05-1.                                *)
 (***************************************************************************)
 EXTENDS TAPreds
 
@@ -29,9 +32,13 @@ CONSTANTS Pool, Parent,            \* Parent \in [Pool -> Pool \cup {""}]
 VARIABLES grant,                   \* container -> [pool, excl, isol, ctype, portion, cls]
           fshar, fisol,            \* [Pool -> SUBSET CPU]: free sharable / isolated CPUs
           gshar, grsv,             \* [Pool -> Nat]: granted shared / reserved mCPU at each pool
-          starved                  \* history: pools whose shared set was taken away by slicing at an ancestor (F-C03-1)
+          starved,                 \* history: pools whose shared set was taken away by slicing at an ancestor (F-C03-1)
+          live,                    \* containers admitted and not yet released (created/running by the runtime's account)
+          dropped,                 \* history: live containers whose grant a failed update took away (F-C05-1)
+          upd                      \* <<>> or [c, r]: an UpdateResources in progress (released, not yet re-allocated)
 
-tvars == <<grant, fshar, fisol, gshar, grsv, starved>>
+tvars == <<grant, fshar, fisol, gshar, grsv, starved, live, dropped, upd>>
+pvars == <<grant, fshar, fisol, gshar, grsv, starved>>
 
 Tree == [p \in Pool |-> [parent |-> Parent[p], shar |-> Shar0[p], rsv |-> Rsv0[p], isol |-> Isol0[p],
                          fshar |-> fshar[p], frsv |-> Rsv0[p], fisol |-> fisol[p], gshar |-> gshar[p], grsv |-> grsv[p]]]
@@ -57,9 +64,10 @@ Told == [c \in {c \in DOMAIN grant : grant[c].ctype # "preserve" /\ ToldOf(c) # 
 Init ==
     /\ grant = <<>> /\ fshar = Shar0 /\ fisol = Isol0
     /\ gshar = [p \in Pool |-> 0] /\ grsv = [p \in Pool |-> 0] /\ starved = {}
+    /\ live = {} /\ dropped = {} /\ upd = <<>>
 
 \* supply.AllocateCPU at pool p for class r, with the nondeterministic choices of the CPU allocator
-Allocate(c, r, p) ==
+AllocBody(c, r, p) ==
     /\ c \notin DOMAIN grant
     /\ LET ctype == IF r.ctype = "reserved" /\ r.fraction > 0 /\ AllocatableReserved(p) < r.fraction THEN "normal" ELSE r.ctype
            full  == IF r.ctype = "reserved" THEN 0 ELSE r.full
@@ -82,7 +90,7 @@ Allocate(c, r, p) ==
                   /\ starved' = starved \cup
                         {q \in DescOf(Tree, p) : Sum(LAMBDA d : gshar[d], SubOf(Tree, q)) > 1000 * Cardinality(fs2[q])}
 
-Release(c) ==
+RelBody(c) ==
     /\ c \in DOMAIN grant
     /\ LET g == grant[c]
            backS == [q \in Pool |-> (g.excl \ g.isol) \cap Shar0[q]]
@@ -94,16 +102,42 @@ Release(c) ==
           /\ grant' = [d \in DOMAIN grant \ {c} |-> grant[d]]
           /\ starved' = {q \in starved : Sum(LAMBDA d : gshar'[d], SubOf(Tree, q)) > 1000 * Cardinality(fshar'[q])}
 
+Idle == upd = <<>>
+Allocate(c, r, p) == Idle /\ c \notin live /\ AllocBody(c, r, p) /\ live' = live \cup {c} /\ UNCHANGED <<dropped, upd>>
+Release(c) == Idle /\ RelBody(c) /\ live' = live \ {c} /\ UNCHANGED <<dropped, upd>>
+\* stopping a container that a failed update left without a grant: nothing to release
+ReleaseGrantless(c) ==
+    /\ Idle /\ c \in live \ DOMAIN grant
+    /\ live' = live \ {c} /\ dropped' = dropped \ {c} /\ UNCHANGED <<pvars, upd>>
+
+\* UpdateResources(c): releasePool, then allocateResources with the new requirements
+UpdateBegin(c, r) == Idle /\ RelBody(c) /\ upd' = [c |-> c, r |-> r] /\ UNCHANGED <<live, dropped>>
+UpdateEnd ==
+    /\ upd # <<>>
+    /\ \/ \E p \in Pool : AllocBody(upd.c, upd.r, p) /\ UNCHANGED dropped
+       \* the pool is picked by score, not by admission: the allocation may fail whenever some pool would refuse
+       \/ /\ \E p \in Pool : ~ENABLED AllocBody(upd.c, upd.r, p)
+          /\ dropped' = dropped \cup {upd.c} /\ UNCHANGED pvars
+    /\ upd' = <<>> /\ UNCHANGED live
+\* UpdateResources for a container without a grant is a plain allocation
+UpdateGrantless(c, r) ==
+    /\ Idle /\ c \in live \ DOMAIN grant
+    /\ \E p \in Pool : AllocBody(c, r, p)
+    /\ dropped' = dropped \ {c} /\ UNCHANGED <<live, upd>>
+
 Next ==
     \/ \E c \in Ctr, r \in Classes, p \in Pool : Allocate(c, r, p)
-    \/ \E c \in Ctr : Release(c)
+    \/ \E c \in Ctr : Release(c) \/ ReleaseGrantless(c)
+    \/ \E c \in Ctr, r \in Classes : UpdateBegin(c, r) \/ UpdateGrantless(c, r)
+    \/ UpdateEnd
 
 Spec == Init /\ [][Next]_tvars
 
 GrantsOf == [c \in DOMAIN grant |-> grant[c]]
 
 \* design-level invariants
-TypeOK == /\ \A p \in Pool : fshar[p] \subseteq Shar0[p] /\ fisol[p] \subseteq Isol0[p] /\ gshar[p] >= 0 /\ grsv[p] >= 0
+TypeOK == /\ live \subseteq Ctr /\ dropped \subseteq live
+          /\ \A p \in Pool : fshar[p] \subseteq Shar0[p] /\ fisol[p] \subseteq Isol0[p] /\ gshar[p] >= 0 /\ grsv[p] >= 0
 Inv_ExclDisjoint       == Bad_ExclDisjoint(GrantsOf) = {}
 Inv_ExclInPoolShared   == Bad_ExclInPoolShared(Tree, GrantsOf) = {}
 \* a starved pool tells its containers an empty shared set; the runtime keeps their old pinning: only the
@@ -118,4 +152,9 @@ Inv_IsolatedAllOrNone  == Bad_IsolatedAllOrNone(GrantsOf) = {}
 Inv_Ledger             == Bad_Ledger(Tree, GrantsOf) = {}
 \* C09 (CPU half): with no grants left every pool is back at its full supply
 Inv_Quiescent == (DOMAIN grant = {}) => (fshar = Shar0 /\ fisol = Isol0 /\ \A p \in Pool : gshar[p] = 0 /\ grsv[p] = 0)
+\* every live container holds a grant, except while it is being updated and except the ones a failed update dropped
+InUpdate == IF upd = <<>> THEN {} ELSE {upd.c}
+Inv_LiveHoldsGrant       == (live \ InUpdate) \ DOMAIN grant \subseteq dropped
+Inv_LiveHoldsGrantStrict == (live \ InUpdate) \subseteq DOMAIN grant            \* the property: violated by the design (F-C05-1)
+Inv_GrantsAreLive        == DOMAIN grant \subseteq live
 =============================================================================
